@@ -990,6 +990,222 @@ fn main() {
                 panic!("records of traces whose root was cancelled (inside a thread-local destructor) were delivered: {:?}", &leaked[..leaked.len().min(6)]);
             }
         }
+        "set-reporter-vs-cycles" => {
+            // tracing is re-initialised again and again while other threads run collector cycles
+            // and fresh threads make their first tracing call: everything must keep returning
+            // (a lock-order inversion between these paths hangs the process; the parent's watchdog
+            // sees that)
+            let rep = Rep::default();
+            fastrace::set_reporter(rep.clone(), Config::default().report_interval(Duration::from_secs(3600)));
+            let stop = Arc::new(std::sync::atomic::AtomicBool::new(false));
+            let mut hs = vec![];
+            for _ in 0..2 {
+                let stop = stop.clone();
+                hs.push(std::thread::spawn(move || {
+                    let mut n = 0u64;
+                    while !stop.load(Ordering::SeqCst) {
+                        fastrace::verif::run_collector_cycle();
+                        n += 1;
+                    }
+                    n
+                }));
+            }
+            let stop2 = stop.clone();
+            let fresh = std::thread::spawn(move || {
+                let mut n = 0u64;
+                while !stop2.load(Ordering::SeqCst) {
+                    std::thread::spawn(|| {
+                        let r = Span::root("fresh", SpanContext::new(TraceId(0xfe01), SpanId(1)));
+                        drop(r);
+                    })
+                    .join()
+                    .unwrap();
+                    n += 1;
+                }
+                n
+            });
+            let t = Instant::now();
+            let mut sets = 0u64;
+            while t.elapsed() < Duration::from_millis(1500) && sets < 400 {
+                fastrace::set_reporter(rep.clone(), Config::default().report_interval(Duration::from_secs(3600)));
+                sets += 1;
+            }
+            stop.store(true, Ordering::SeqCst);
+            let cycles: u64 = hs.into_iter().map(|h| h.join().unwrap()).sum();
+            let fresh_threads = fresh.join().unwrap();
+            extra = json!({"set_reporter_calls": sets, "concurrent_cycles": cycles, "fresh_threads_that_traced": fresh_threads});
+        }
+        "many-cycles-before-finish" | "many-cycles-before-finish-cancelable" => {
+            // a span stays open across thousands of collector cycles after events and properties
+            // were attached to it: they are still on it when it finally finishes
+            let rep = Rep::default();
+            let cancelable = sc.ends_with("cancelable");
+            fastrace::set_reporter(rep.clone(), Config::default().cancelable(cancelable).report_interval(Duration::from_secs(3600)));
+            std::thread::sleep(Duration::from_millis(30));
+            let root = Span::root("long-root", SpanContext::new(TraceId(0xfd01), SpanId(1)));
+            let child = Span::enter_with_parent("long-child", &root).with_property(|| ("at", "creation"));
+            child.add_property(|| ("by", "handle"));
+            child.add_event(Event::new("handle-event"));
+            {
+                let _g = child.set_local_parent();
+                LocalSpan::add_property(|| ("by", "scope"));
+                LocalSpan::add_event(Event::new("scope-event"));
+            }
+            let cycles = 7000;
+            for _ in 0..cycles {
+                fastrace::verif::run_collector_cycle();
+            }
+            drop(child);
+            drop(root);
+            fastrace::flush();
+            fastrace::flush();
+            let recs = rep.0.lock().unwrap();
+            let c: Vec<&SpanRecord> = recs.iter().filter(|r| r.name == "long-child").collect();
+            if c.len() != 1 {
+                panic!("{} records of the long-lived child", c.len());
+            }
+            let props: Vec<String> = c[0].properties.iter().map(|(k, v)| format!("{}={}", k, v)).collect();
+            let evs: Vec<String> = c[0].events.iter().map(|e| e.name.to_string()).collect();
+            extra = json!({"collector_cycles_while_open": cycles, "properties": props, "events": evs});
+            if props != ["at=creation", "by=handle", "by=scope"] || evs != ["handle-event", "scope-event"] {
+                panic!("after {} collector cycles the span came out with properties {:?} and events {:?}; attached were at=creation, by=handle, by=scope and handle-event, scope-event", cycles, props, evs);
+            }
+        }
+        "flush-delivers-what-finished-before-it" => {
+            // flush() called while another cycle is busy inside a slow report(): whatever had
+            // finished before the call must have been reported when it returns
+            struct Slow2 {
+                inside: Arc<std::sync::atomic::AtomicBool>,
+                open: Arc<std::sync::atomic::AtomicBool>,
+                got: Arc<Mutex<Vec<String>>>,
+            }
+            impl Reporter for Slow2 {
+                fn report(&mut self, spans: Vec<SpanRecord>) {
+                    if !spans.is_empty() {
+                        self.inside.store(true, Ordering::SeqCst);
+                        let t = Instant::now();
+                        while !self.open.load(Ordering::SeqCst) && t.elapsed() < Duration::from_secs(5) {
+                            std::thread::sleep(Duration::from_millis(1));
+                        }
+                        self.inside.store(false, Ordering::SeqCst);
+                    }
+                    self.got.lock().unwrap().extend(spans.iter().map(|r| r.name.to_string()));
+                }
+            }
+            let inside = Arc::new(std::sync::atomic::AtomicBool::new(false));
+            let open = Arc::new(std::sync::atomic::AtomicBool::new(true));
+            let got = Arc::new(Mutex::new(Vec::new()));
+            fastrace::set_reporter(Slow2 { inside: inside.clone(), open: open.clone(), got: got.clone() }, Config::default().report_interval(Duration::from_secs(3600)));
+            std::thread::sleep(Duration::from_millis(30));
+            for round in 0..10u128 {
+                {
+                    let e = Span::root(format!("early-{}", round), SpanContext::new(TraceId(0xfc00 + round), SpanId(1)));
+                    drop(e);
+                }
+                open.store(false, Ordering::SeqCst);
+                let f1 = std::thread::spawn(fastrace::flush);
+                let t = Instant::now();
+                while !inside.load(Ordering::SeqCst) && t.elapsed() < Duration::from_secs(5) {
+                    std::thread::sleep(Duration::from_millis(1));
+                }
+                let name = format!("late-{}", round);
+                {
+                    let l = Span::root(name.clone(), SpanContext::new(TraceId(0xfc80 + round), SpanId(1)));
+                    drop(l);
+                }
+                // the gate opens a little later, on its own
+                let o = open.clone();
+                let opener = std::thread::spawn(move || {
+                    std::thread::sleep(Duration::from_millis(60));
+                    o.store(true, Ordering::SeqCst);
+                });
+                fastrace::flush();
+                let delivered = got.lock().unwrap().iter().any(|n| *n == name);
+                f1.join().unwrap();
+                opener.join().unwrap();
+                if !delivered {
+                    panic!("round {}: flush() returned but {:?}, finished before the call, had not been reported (another cycle was inside a slow report() when flush() was called)", round, name);
+                }
+            }
+            extra = json!({"rounds": 10});
+        }
+        "panicking-closures-in-scope" => {
+            // property closures that panic (caught by the caller) inside an open scope: afterwards
+            // the thread's local context is what it was before the call
+            let rep = install(false);
+            let root = Span::root("pc-root", SpanContext::new(TraceId(0xfb01), SpanId(1)));
+            let root_ctx = SpanContext::from_span(&root).map(|c| (c.trace_id.0, c.span_id.0));
+            let quiet = |f: &mut dyn FnMut()| {
+                let r = catch_unwind(AssertUnwindSafe(f));
+                assert!(r.is_err(), "harness: the closure was expected to panic");
+            };
+            // no panic message noise
+            let prev = std::panic::take_hook();
+            std::panic::set_hook(Box::new(|_| {}));
+            let mut problems: Vec<String> = vec![];
+            {
+                let _g = root.set_local_parent();
+                let mut check = |what: &str| {
+                    let now = SpanContext::current_local_parent().map(|c| (c.trace_id.0, c.span_id.0));
+                    if now != root_ctx {
+                        problems.push(format!("after {}: current_local_parent() = {:x?}, expected the root {:x?}", what, now, root_ctx));
+                    }
+                };
+                quiet(&mut || {
+                    let _l = LocalSpan::enter_with_local_parent("pc-local-1").with_properties(|| -> Vec<(String, String)> { panic!("user closure") });
+                });
+                check("LocalSpan::with_properties(panicking closure)");
+                quiet(&mut || {
+                    let _l = LocalSpan::enter_with_local_parent("pc-local-2").with_property(|| -> (String, String) { panic!("user closure") });
+                });
+                check("LocalSpan::with_property(panicking closure)");
+                quiet(&mut || {
+                    let _l = LocalSpan::enter_with_local_parent("pc-local-3");
+                    LocalSpan::add_properties(|| -> Vec<(String, String)> { panic!("user closure") });
+                });
+                check("LocalSpan::add_properties(panicking closure) inside a local span");
+                quiet(&mut || LocalSpan::add_property(|| -> (String, String) { panic!("user closure") }));
+                check("LocalSpan::add_property(panicking closure)");
+                quiet(&mut || {
+                    let _s = Span::enter_with_local_parent("pc-span").with_properties(|| -> Vec<(String, String)> { panic!("user closure") });
+                });
+                check("Span::with_properties(panicking closure)");
+                quiet(&mut || root.add_properties(|| -> Vec<(String, String)> { panic!("user closure") }));
+                check("Span::add_properties(panicking closure)");
+                quiet(&mut || LocalSpan::add_event(Event::new("pc-event").with_properties(|| -> Vec<(String, String)> { panic!("user closure") })));
+                check("Event::with_properties(panicking closure)");
+                // and the scope still works
+                let _after = LocalSpan::enter_with_local_parent("pc-after");
+                LocalSpan::add_event(Event::new("pc-after-event"));
+                let c = Span::enter_with_local_parent("pc-after-child");
+                drop(c);
+            }
+            std::panic::set_hook(prev);
+            let root_id = root_ctx.map(|c| c.1).unwrap_or(0);
+            drop(root);
+            fastrace::flush();
+            let recs = rep.0.lock().unwrap();
+            let after = recs.iter().find(|r| r.name == "pc-after");
+            let child = recs.iter().find(|r| r.name == "pc-after-child");
+            match (after, child) {
+                (Some(a), Some(c)) => {
+                    if a.parent_id.0 != root_id {
+                        problems.push(format!("the local span entered after the panics hangs under {:x}, expected the root {:x}", a.parent_id.0, root_id));
+                    }
+                    if c.parent_id != a.span_id {
+                        problems.push(format!("the child created inside it hangs under {:x}, expected {:x}", c.parent_id.0, a.span_id.0));
+                    }
+                    if a.events.len() != 1 {
+                        problems.push(format!("the local span entered after the panics carries {} events, expected 1", a.events.len()));
+                    }
+                }
+                _ => problems.push("the spans recorded after the panics were not delivered".to_string()),
+            }
+            extra = json!({"closure_panics_contained": 7, "problems": problems.len()});
+            if !problems.is_empty() {
+                panic!("{}", problems.join("; "));
+            }
+        }
         "deep-backlog" => {
             // more finish signals parked in one episode than the ring has slots (10240): they must
             // all get through once the collector runs again, and later traces must be complete
